@@ -70,9 +70,33 @@ func (s *JSONFileStorage) Stop() error {
 	if err != nil {
 		return fmt.Errorf("failed to marshal json storage: %w", err)
 	}
-	err = os.WriteFile(s.filename, data, 0o0644) //nolint:gosec // no secrets
-	if err != nil {
+	if err := writeFileAtomic(s.filename, data); err != nil {
 		return fmt.Errorf("failed to write json storage to %s: %w", s.filename, err)
 	}
 	return nil
+}
+
+// writeFileAtomic writes the data to a temporary file next to the given file
+// and then moves it into place, so that a crash while writing never leaves a
+// partially written file behind.
+func writeFileAtomic(filename string, data []byte) error {
+	tmpName := filename + ".tmp"
+	f, err := os.OpenFile(tmpName, os.O_WRONLY|os.O_CREATE|os.O_TRUNC, 0o0644) //nolint:gosec // no secrets
+	if err != nil {
+		return err
+	}
+	_, err = f.Write(data)
+	if err == nil {
+		err = f.Sync()
+	}
+	if closeErr := f.Close(); err == nil {
+		err = closeErr
+	}
+	if err == nil {
+		err = os.Rename(tmpName, filename)
+	}
+	if err != nil {
+		_ = os.Remove(tmpName)
+	}
+	return err
 }
